@@ -179,7 +179,7 @@ def run(ctx, res):
                 res.check(len(before) == 0, "C03.R2", site(nxt, "no-advance-when-first"), "first after seek: entry under the cursor is returned without advancing",
                           "next after a seek advances before returning", nxt.loc(nxt.body), p.describe(nxt))
         fst = [e for e in evs if e.kind == "store" and e.a.endswith("->first")]
-        res.check(bool(fst) and fst[0].b == ("c", 0), "C03.R2", site(nxt, "first:=false"), "next clears first",
+        res.check((bool(fst) and fst[-1].b == ("c", 0)) or (not fst and first0 == frozenset((EQ,))), "C03.R2", site(nxt, "first:=false"), "next leaves first cleared",
                   "next leaves first set", nxt.loc(nxt.body), p.describe(nxt))
         # the value of valid decides the result
         r = p.ret()
